@@ -115,3 +115,15 @@ Proofs/U2fP.vos Proofs/U2fP.vok Proofs/U2fP.required_vos: Proofs/U2fP.v Model/Ba
 Properties/C08.vo Properties/C08.glob Properties/C08.v.beautified Properties/C08.required_vo: Properties/C08.v Model/Base.vo Model/Schema.vo Model/Wire.vo Model/Typed.vo Model/Procs.vo Model/Inst.vo Spec/Tables.vo Spec/ProcTables.vo Proofs/Finite.vo Proofs/FramingP.vo Proofs/WireP.vo Proofs/C18P.vo Proofs/U2fP.vo
 Properties/C08.vio: Properties/C08.v Model/Base.vio Model/Schema.vio Model/Wire.vio Model/Typed.vio Model/Procs.vio Model/Inst.vio Spec/Tables.vio Spec/ProcTables.vio Proofs/Finite.vio Proofs/FramingP.vio Proofs/WireP.vio Proofs/C18P.vio Proofs/U2fP.vio
 Properties/C08.vos Properties/C08.vok Properties/C08.required_vos: Properties/C08.v Model/Base.vos Model/Schema.vos Model/Wire.vos Model/Typed.vos Model/Procs.vos Model/Inst.vos Spec/Tables.vos Spec/ProcTables.vos Proofs/Finite.vos Proofs/FramingP.vos Proofs/WireP.vos Proofs/C18P.vos Proofs/U2fP.vos
+Properties/C10.vo Properties/C10.glob Properties/C10.v.beautified Properties/C10.required_vo: Properties/C10.v Model/Base.vo Model/Schema.vo Model/Wire.vo Model/Typed.vo Model/Procs.vo Model/Inst.vo Spec/Tables.vo Spec/ProcTables.vo Proofs/Finite.vo Proofs/FramingP.vo
+Properties/C10.vio: Properties/C10.v Model/Base.vio Model/Schema.vio Model/Wire.vio Model/Typed.vio Model/Procs.vio Model/Inst.vio Spec/Tables.vio Spec/ProcTables.vio Proofs/Finite.vio Proofs/FramingP.vio
+Properties/C10.vos Properties/C10.vok Properties/C10.required_vos: Properties/C10.v Model/Base.vos Model/Schema.vos Model/Wire.vos Model/Typed.vos Model/Procs.vos Model/Inst.vos Spec/Tables.vos Spec/ProcTables.vos Proofs/Finite.vos Proofs/FramingP.vos
+Proofs/FilterP.vo Proofs/FilterP.glob Proofs/FilterP.v.beautified Proofs/FilterP.required_vo: Proofs/FilterP.v Model/Base.vo Model/Schema.vo Model/Wire.vo Model/Utf8.vo Model/Typed.vo Proofs/WireP.vo
+Proofs/FilterP.vio: Proofs/FilterP.v Model/Base.vio Model/Schema.vio Model/Wire.vio Model/Utf8.vio Model/Typed.vio Proofs/WireP.vio
+Proofs/FilterP.vos Proofs/FilterP.vok Proofs/FilterP.required_vos: Proofs/FilterP.v Model/Base.vos Model/Schema.vos Model/Wire.vos Model/Utf8.vos Model/Typed.vos Proofs/WireP.vos
+Properties/C14.vo Properties/C14.glob Properties/C14.v.beautified Properties/C14.required_vo: Properties/C14.v Model/Base.vo Model/Schema.vo Model/Wire.vo Model/Utf8.vo Model/Typed.vo Model/Procs.vo Model/Inst.vo Spec/Tables.vo Spec/ProcTables.vo Proofs/Finite.vo Proofs/FramingP.vo Proofs/WireP.vo Proofs/FilterP.vo
+Properties/C14.vio: Properties/C14.v Model/Base.vio Model/Schema.vio Model/Wire.vio Model/Utf8.vio Model/Typed.vio Model/Procs.vio Model/Inst.vio Spec/Tables.vio Spec/ProcTables.vio Proofs/Finite.vio Proofs/FramingP.vio Proofs/WireP.vio Proofs/FilterP.vio
+Properties/C14.vos Properties/C14.vok Properties/C14.required_vos: Properties/C14.v Model/Base.vos Model/Schema.vos Model/Wire.vos Model/Utf8.vos Model/Typed.vos Model/Procs.vos Model/Inst.vos Spec/Tables.vos Spec/ProcTables.vos Proofs/Finite.vos Proofs/FramingP.vos Proofs/WireP.vos Proofs/FilterP.vos
+Properties/C13.vo Properties/C13.glob Properties/C13.v.beautified Properties/C13.required_vo: Properties/C13.v Model/Base.vo Model/Schema.vo Model/Wire.vo Model/Utf8.vo Model/Typed.vo Model/Procs.vo Model/Inst.vo Spec/Tables.vo Spec/Limits.vo Proofs/WireP.vo Proofs/TypedP.vo Proofs/FramingP.vo
+Properties/C13.vio: Properties/C13.v Model/Base.vio Model/Schema.vio Model/Wire.vio Model/Utf8.vio Model/Typed.vio Model/Procs.vio Model/Inst.vio Spec/Tables.vio Spec/Limits.vio Proofs/WireP.vio Proofs/TypedP.vio Proofs/FramingP.vio
+Properties/C13.vos Properties/C13.vok Properties/C13.required_vos: Properties/C13.v Model/Base.vos Model/Schema.vos Model/Wire.vos Model/Utf8.vos Model/Typed.vos Model/Procs.vos Model/Inst.vos Spec/Tables.vos Spec/Limits.vos Proofs/WireP.vos Proofs/TypedP.vos Proofs/FramingP.vos
